@@ -5,4 +5,5 @@ let () =
   | [| _; "c15" |] -> C15.run ()
   | [| _; "script"; f |] -> Script.run f
   | [| _; "judge"; f; o |] -> Judge.run f o
+  | [| _; "api"; f; o |] -> Api.run f o
   | _ -> prerr_endline "usage: gvmodel <subcommand>"; exit 2
